@@ -34,7 +34,7 @@ class FalsyBE(BE):
 
 def strategy(tier):
     op = st.one_of(
-        st.sampled_from([["add"], ["add"], ["flush"], ["cancel", False], ["cancel", True], ["batch_value"], ["batch_error"], ["query"]]),
+        st.sampled_from([["add"], ["add"], ["flush"], ["cancel", False], ["cancel", True], ["batch_value"], ["batch_error"], ["query"], ["later_generation"], ["later_generation"]]),
         st.tuples(st.just("item_value"), st.integers(0, 5)).map(list),
     )
     plan = st.fixed_dictionaries({"mode": st.lists(st.sampled_from("ve-"), min_size=1, max_size=3), "fail": st.sampled_from([None, None, "exc", "base"]),
@@ -174,6 +174,15 @@ def check(case, ctx):
                         bad("active", "a request created after the batch finished joined a finished batch")
                 elif Kind.cur is b or Kind.cur.is_flushed():
                     bad("active", "the finished batch is still the active batch")
+        elif name == "later_generation":
+            # once this batch has finished: a later batch of the same kind is created, used and finished too
+            # (nothing of that may touch the finished batch, which the following operations keep checking)
+            if M["state"] != "pending":
+                it = DebugBatchItem("c11", 50) if debug else HI()
+                if it.batch is b:
+                    bad("active", "a request created after the batch finished joined it")
+                else:
+                    run(it.batch.flush)
         elif name == "flush":
             r = run(b.flush)
             if M["state"] == "pending":
@@ -235,9 +244,11 @@ def check(case, ctx):
                     bad("active", "the finished batch is still the active batch")
                 if b.body_runs and b.active_during_body:
                     bad("active", "the batch was still the active batch while its flush body ran")
-                for it in b.created_in_flush:
+                for it in ([] if M.get("spawn_checked") else b.created_in_flush):
+                    # (looked at once, when the batch has just finished: the successor batch may be flushed later)
                     if it.batch is b or it.batch.is_flushed():
                         bad("active", "an item created during the flush did not join a fresh pending batch")
+                M["spawn_checked"] = True
             # every item outcome matches the reference (read without triggering anything)
             for n, it in enumerate(items):
                 o = M["item_out"][n]
@@ -259,6 +270,7 @@ def check(case, ctx):
     ctx.label("flush-raises", bool(fail) and M["runs"] > 0)
     ctx.label("spawn-in-flush", spawn and M["runs"] > 0 and not debug)
     ctx.label("items>=2", len(items) >= 2)
+    ctx.label("later-generations>=2", sum(1 for o in case["ops"] if o[0] == "later_generation") >= 2 and M["state"] != "pending")
     ctx.nontrivial(case, M["state"] != "pending" and len(items) >= 2 and M["after"] >= 1)
     return viol
 
